@@ -32,9 +32,12 @@ def main():
         meta = json.load(open(os.path.join(src, "meta.json")))
         clean()
         dest = meta["demo_dest"]
-        demo_files = os.listdir(os.path.join(src, "demo"))
-        os.makedirs(os.path.join(WT, os.path.dirname(dest)), exist_ok=True)
+        demo_files = sorted(os.listdir(os.path.join(src, "demo")), key=lambda f: (os.path.basename(dest) != f, f))
+        os.makedirs(os.path.join(WT, os.path.dirname(dest)) if os.path.dirname(dest) else WT, exist_ok=True)
         shutil.copy(os.path.join(src, "demo", demo_files[0]), os.path.join(WT, dest))
+        if "<repo-root>" in meta["demo_cmd"]:
+            script = meta["demo_cmd"].split("#")[0].split()[1]          # e.g. demo/run_demo_m1.sh
+            meta["demo_cmd"] = f"sh {os.path.join(src, script)} {WT}"
         ran = []
         rc0, out0 = sh(meta["demo_cmd"]); ran.append(("clean tree: " + meta["demo_cmd"], rc0))
         rc1, out1 = sh(f"git apply {os.path.join(src, 'patch.diff')}"); ran.append(("git apply patch.diff", rc1))
